@@ -73,13 +73,18 @@ class Picker:
         return seq[k]
 
 
-def build(spec, picker=None):
-    net = TraceStochastic(early_departure=spec["early"])
+def build(spec, picker=None, net=None):
     ids = spec["stations"]
-    for sid in ids:
-        net.register_evse(EVSE(sid, max_rate=32.0), V, 0)
-    if spec["constrained"]:
-        net.add_constraint(Current(list(ids)), 32.0 * len(ids), name="aggregate")
+    if net is None:
+        if spec.get("positional_args"):
+            # the released signature, used positionally: (violation_tolerance, relative_tolerance, early_departure)
+            net = TraceStochastic(1e-5, 1e-7, spec["early"])
+        else:
+            net = TraceStochastic(early_departure=spec["early"])
+        for sid in ids:
+            net.register_evse(EVSE(sid, max_rate=32.0), V, 0)
+        if spec["constrained"]:
+            net.add_constraint(Current(list(ids)), 32.0 * len(ids), name="aggregate")
     evs = {}
     for s in spec["sessions"]:
         # the space a session declares (as ACN-Data sessions do) is only a hint: assignment is random
@@ -116,6 +121,27 @@ def prop(spec, rec):
     picker = Picker(spec["choices"])
     net, sim, evs = build(spec)
     run(sim, picker)
+    labels = judge(spec, net, sim, evs, picker, rec, (0, 0, 0))
+    if labels is None:
+        return
+    if spec.get("second_run"):
+        # the same site (network object) serves the same day again: fresh EV objects with the
+        # same session ids, fresh queue, scheduler and simulator
+        base = (net.never_charged, net.swaps, net.early_unplug)
+        net.before, net.after, net.t = {}, {}, -1
+        picker2 = Picker(spec["choices"][::-1])
+        _, sim2, evs2 = build(spec, net=net)
+        run(sim2, picker2)
+        l2 = judge(spec, net, sim2, evs2, picker2, rec, base)
+        if l2 is None:
+            return
+        labels = labels | l2 | {"network_object_used_for_a_second_run"}
+    if spec.get("positional_args"):
+        labels.add("constructed_with_positional_arguments")
+    rec.case(spec, labels, "waited_then_admitted" in labels or "departed_while_waiting" in labels)
+
+
+def judge(spec, net, sim, evs, picker, rec, base):
     ids = spec["stations"]
     sess = {s["id"]: s for s in spec["sessions"]}
     last = max(s["departure"] for s in spec["sessions"])
@@ -193,7 +219,7 @@ def prop(spec, rec):
                 if abs(rem - 1e-3) <= 1e-6:
                     rec.count("ambiguous_threshold")
                     rec.case(spec, labels | {"ambiguous"}, False)
-                    return
+                    return None
                 if not rem > 1e-3:
                     occ[stn] = None
                     gone.add(sid)
@@ -217,7 +243,8 @@ def prop(spec, rec):
         require(net.get_ev(stn) is None, "station_not_vacated", lambda: "station %s still holds %s" % (stn, net.get_ev(stn).session_id))
     require(len(net.waiting_queue) == 0, "queue_not_empty_at_end", lambda: "waiting queue %r" % list(net.waiting_queue))
     require(gone == set(sess), "session_not_gone", lambda: "sessions never departed: %r" % sorted(set(sess) - gone))
-    require((net.never_charged, net.swaps, net.early_unplug) == (never, swaps, early), "counters", lambda: "(never_charged, swaps, early_unplug) = %r, model %r" % ((net.never_charged, net.swaps, net.early_unplug), (never, swaps, early)))
+    want_counters = (base[0] + never, base[1] + swaps, base[2] + early)
+    require((net.never_charged, net.swaps, net.early_unplug) == want_counters, "counters", lambda: "(never_charged, swaps, early_unplug) = %r, model %r" % ((net.never_charged, net.swaps, net.early_unplug), want_counters))
     require(pi == len(picker.picks), "extra_station_choices", lambda: "%d station choices made, %d plug-ins with a free station" % (len(picker.picks), pi))
     # energy only for sessions that were connected, and never more than charged there
     for sid, ev in evs.items():
@@ -231,7 +258,7 @@ def prop(spec, rec):
         labels.add("more_sessions_than_stations")
     if any(s.get("declared") in ids for s in spec["sessions"]):
         labels.add("declared_registered_station")
-    rec.case(spec, labels, waited_admitted or departed_waiting)
+    return labels
 
 
 def prop_reproducible(spec, rec):
@@ -266,12 +293,14 @@ def cases(draw):
         "choices": draw(st.lists(st.integers(0, 11), min_size=1, max_size=12)),
         "event_order": list(draw(st.permutations(range(k)))),
         "seed": draw(st.integers(0, 10 ** 6)),
+        "second_run": draw(st.integers(0, 2)) == 0,
+        "positional_args": draw(st.booleans()),
     }
 
 
 def subchecks(tier):
     return [
-        Given("space_assignment", cases(), prop, quick=500, thorough=40000, floors={"waited_then_admitted": 0.3, "departed_while_waiting": 0.15, "early_departure_happened": 0.08, "more_sessions_than_stations": 0.37}),
+        Given("space_assignment", cases(), prop, quick=500, thorough=40000, floors={"waited_then_admitted": 0.3, "departed_while_waiting": 0.15, "early_departure_happened": 0.08, "more_sessions_than_stations": 0.37, "network_object_used_for_a_second_run": 0.1, "constructed_with_positional_arguments": 0.2}),
         Given("reproducible", cases(), prop_reproducible, quick=60, thorough=3000, jobs_quick=2),
     ]
 
